@@ -45,6 +45,9 @@ class C05(CheckBase):
                 variant = 'opus'      # an Opus DDOS file system cross-checks the geometry of the side it is on
             s = dd.gen_surface(rng, variant=variant, geom=(fc['tracks'], fc['spt']), img_id=2, side=side)
             surfaces.append(s.to_json())
+        if fc['sides'] == 2 and rng.chance(0.3):
+            # a disc formatted on one side only, imaged with a two-headed drive: side 1 holds no address marks
+            fc['blank_sides'] = [1]
         return {'flux': fc, 'surfaces': surfaces, 'spot': rng.below(6) == 0, 'spot_cmd': rng.choice(['cat', 'info', 'type']), 'spot_side': rng.below(2)}
 
     def run_case(self, case, ctx):
@@ -80,9 +83,22 @@ class C05(CheckBase):
             out.violate('C05.a', '%s: a fault-free recording was rejected: %s' % (what, j['error'][:200]), dict(desc, what='rejected'), case)
         else:
             drives = j['drives']
-            if len(drives) != fc['sides']:
+            blank = set(fc.get('blank_sides') or ())
+            if blank:
+                out.probe('image-with-unformatted-side')
+            if len(drives) != fc['sides'] and not (blank and len(drives) == fc['sides'] - len(blank)):
                 out.violate('C05.a', '%s: %d drives attached for %d sides' % (what, len(drives), fc['sides']), dict(desc, what='sides'), case)
-            for di, d in enumerate(drives[:fc['sides']]):
+            for d in drives:
+                di = {0: 0, 2: 1}.get(d['n'])
+                if di is None or di >= fc['sides']:
+                    out.violate('C05.a', '%s: a drive numbered %d was attached' % (what, d['n']), dict(desc, what='sides'), case)
+                    continue
+                if di in blank:
+                    # nothing is recorded there: whatever the drive reports, no sector may be readable
+                    rb = e2.readall(d['n'])
+                    if any(isinstance(x, (bytes, bytearray)) for x in rb['sectors']):
+                        out.violate('C05.c', '%s: side %d is unformatted, yet sectors were read from it' % (what, di), dict(desc, what='blank-side-readable'), case)
+                    continue
                 g = d['geometry']
                 if g[0] != fc['tracks'] or g[2] != fc['spt'] or g[3] != fc['enc']:
                     verdict = 'geometry'
@@ -130,6 +146,8 @@ class C05(CheckBase):
         ext = 'ssd' if fc['enc'] == 'fm' else 'sdd'
         fname = 'f.mfm' if fc['container'] == 'mfm' else 'f.hfe'
         side = case.get('spot_side', 0) % len(surfs)
+        if side in (fc.get('blank_sides') or ()):
+            side = 0      # nothing is recorded on an unformatted side: compare the formatted one
         s = surfs[side]
         drive = 0 if side == 0 else 2
         if not dd.geometry_is_identifiable(s, ext):
